@@ -1906,6 +1906,8 @@ func (s *ImmuStore) performPrecommit(tx *Tx, entries []*EntrySpec, ts int64, blT
 	tx.header.Ts = ts
 
 	tx.header.BlTxID = blTxID
+	// tx holders are pooled: clear what a previous use may have left behind
+	tx.header.BlRoot = [sha256.Size]byte{}
 
 	if blTxID > 0 {
 		blRoot, err := s.aht.RootAt(blTxID)
